@@ -507,9 +507,11 @@ def r4(prog, run):
     auth_calls = [i for i, _ in cont.calls('QXmpp::Private::NonSaslAuthManager::authenticate')]
     pt_decl = None
     for i in auth_calls:
-        a0 = cont.nodes[cont.skip(cont.nodes[i]['args'][0])]
-        if a0['k'] == 'var':
-            pt_decl = a0['decl']
+        # the flag may be passed as it is or unwrapped from an optional (*plainText, plainText.value())
+        for j in cont.walk(cont.nodes[i]['args'][0]):
+            a0 = cont.nodes[j]
+            if a0['k'] == 'var' and a0.get('vk') == 'local' and pt_decl is None:
+                pt_decl = a0['decl']
     if pt_decl is None:
         raise AnalysisBroken('C04.R4: first argument of authenticate() is not a local flag')
     mech = prog.enum('QXmppConfiguration::NonSASLAuthMechanism')
@@ -549,7 +551,8 @@ def r4(prog, run):
                             d['pt'] = ev.ev(n['r'], st)
                             return tuple(sorted(d.items(), key=lambda kv: kv[0]))
                     if n['k'] == 'call' and f.cname(n) == 'QXmpp::Private::NonSaslAuthManager::authenticate':
-                        d['auth'] = d.get('pt', '?')
+                        v = ev.ev(n['args'][0], st)
+                        d['auth'] = v if isinstance(v, bool) else d.get('pt', '?')
                         return tuple(sorted(d.items(), key=lambda kv: kv[0]))
                     return None
                 exits, info = cfgx.explore(cont, (), transfer, lambda f, c, st: ev.ev(c, st))
